@@ -50,7 +50,7 @@ def shards(tier, seed):
     out.append(("child_bb_pem", dict(kind="pem", count=300 if q else 4000, _pyopt="bb")))
     for i in range(2 if q else 8):
         out.append(("concurrent_loaders_%d" % i, dict(kind="concurrent", runs=120 if q else 1500)))
-        out.append(("first_use_loaders_%d" % i, dict(kind="first_use", runs=40 if q else 400)))
+        out.append(("first_use_loaders_%d" % i, dict(kind="first_use", runs=24 if q else 400)))
     if not q:
         for nm in ("NIST192p", "SECP112r1"):
             for part in range(8):
@@ -449,8 +449,8 @@ def _run(ctx, rng, kind, **kw):
                     + S.codes_of(M.keys.SigningKey, {"from_der", "from_pem"}) + S.codes_of(M.der, {"unpem", "remove_object", "remove_sequence"}))
         S.first_use_purity(ctx, codes, mk, rng, kw["runs"], cls="first_use_loaders")
         # and systematically: every single-preemption schedule over the yield points of the functions that keep module-level state
-        S.first_use_systematic(ctx, lambda M: S.stateful_codes(M.curves, M.keys, M.der, M.util, M.ecdsa, M.ellipticcurve, M.numbertheory, M._compat), mk, rng, max(3, kw["runs"] // 10),
-                               cls="first_use_loaders_systematic")
+        S.first_use_systematic(ctx, lambda M: S.stateful_codes(M.curves, M.keys, M.der, M.util, M.ecdsa, M.ellipticcurve, M.numbertheory, M._compat), mk, rng, max(2, kw["runs"] // 10),
+                               cls="first_use_loaders_systematic", max_positions=40)
     elif kind == "pem":
         curve = lib.BY_NAME["NIST256p"]
         sk, vk, msg, digest, M = material(curve, rng)
